@@ -620,6 +620,8 @@ pub fn check(args: &Args) -> i32 {
             "probes": totals["probes"],
             "distinct_api_error_fault_triples": totals["err_kinds"].as_array().map(|a| a.len()).unwrap_or(0),
             "max_stack_bytes_inside_gimli": totals["max_stack"],
+            "max_single_heap_request_bytes": totals["max_alloc"],
+            "heap_seam": format!("single requests > {} MiB or > {} MiB live are refused (simulated allocation failure -> abort, attributed to the run)", crate::alloc::MAX_SINGLE >> 20, crate::alloc::MAX_LIVE >> 20),
             "batches": per_batch,
             "determinism_selftest": selftest,
             "known_findings_matched": known_matched,
